@@ -22,6 +22,7 @@ func registry() *kernel.Registry {
 		Components:  map[string][2][]string{},
 		Assumptions: map[string][]string{},
 		MinProbes:   map[string][]string{},
+		UnstableSUT: map[string]int{"C14": 8},
 	}
 	reg.Components["xr"] = [2][]string{
 		{"teleport application (app.NewTeleport: BaseApp, ante handler, EVM, xibc, aggregate, gov, staking, bank) built from /repo's working tree, 2-3 instances per run",
